@@ -43,7 +43,10 @@ def bounds(run):
 
 WKINDS = ["none", "list", "tuple", "callable", "generator", "stream", "callable-shared", "callable-iterable"]
 WVALS = {"ramp": lambda i, n: Q(i + 1, 2), "mixed": lambda i, n: [Q(1, 2), Q(-1), Q(0), Q(2), Q(-3, 4)][i % 5],
-         "zeros": lambda i, n: Q(0)}
+         "zeros": lambda i, n: Q(0),
+         # magnitudes far from 1: the gain is the reciprocal of the strided sum whatever its size
+         "tiny": lambda i, n: Q(i + 1, 2) * Q(F(1, 2 ** 200)), "huge": lambda i, n: Q(i % 3 + 1) * Q(2 ** 200),
+         "subepsilon": lambda i, n: Q([1, 3, 3, 1][i % 4]) * Q(F(1, 2 ** 60))}
 CONT = ["list", "tuple", "iter", "deque"]
 
 
@@ -485,10 +488,62 @@ def run_routes(case):
   return routes_agree(case[0], f, spec, canon)
 
 
+# ------------------------------------------- the default overlap-add strategy
+def gen_default(run):
+  for order in ("default-then-build", "build-then-default", "build-call-default-call"):
+    for style in ("direct", "decorator"):
+      for size, hop in ((4, 2), (3, 3), (6, 2)):
+        yield (order, style, size, hop)
+
+
+def run_default(case):
+  """overlap_add is a StrategyDict whose default a user may choose (here: the pure-Python list
+  strategy, the only one usable without numpy).  An STFT processor that is not given ``ola`` uses the
+  default in force when it is CALLED - whichever of building and choosing came first - and gives what
+  ola=overlap_add.list gives."""
+  order, style, size, hop = case
+  x = [Q(v) for v in (1, -2, 3, 5, 0, 7, -1, 4, 2, 2, -6)]
+  mk = (lambda **kw: stft(lambda blk: blk, **kw)) if style == "direct" else (lambda **kw: stft(**kw)(lambda blk: blk))
+  base = dict(size=size, hop=hop, transform=None, inverse_transform=None, before=None, after=None)
+  want = [str(Q(v).f) for v in mk(ola=overlap_add.list, **base)(list(x))]
+  saved = vars(overlap_add).get("default", None)
+  try:
+    if order == "default-then-build":
+      overlap_add.default = overlap_add.list
+      proc = mk(**base)
+      got = [str(Q(v).f) for v in proc(list(x))]
+    elif order == "build-then-default":
+      proc = mk(**base)
+      overlap_add.default = overlap_add.list
+      got = [str(Q(v).f) for v in proc(list(x))]
+    else:
+      proc = mk(**base)
+      overlap_add.default = overlap_add.list
+      first = [str(Q(v).f) for v in proc(list(x))]
+      overlap_add.default = (lambda blks, **kw: Stream(["other strategy"]))
+      second = list(proc(list(x)))
+      got = first if second == ["other strategy"] else ["second call did not use the new default"] + [str(v) for v in second[:3]]
+  except Exception as exc:
+    return bad("stft:default-ola:" + type(exc).__name__, "an STFT processor without ola= must use the overlap-add "
+               "default chosen by the user (%s)" % order, want[:4], str(exc)[:200], True)
+  finally:
+    if saved is None:
+      try: del overlap_add.default
+      except Exception: pass
+    else:
+      overlap_add.default = saved
+  if got != want:
+    return bad("stft:default-ola", "an STFT processor without ola= must give what the default strategy in force at "
+               "the call gives (%s)" % order, want[:6], got[:6], True)
+  return R(None, True, (order, style))
+
+
 KINDS = OrderedDict([
   ("ola", Kind(gen_ola, run_ola, chunk=300, rule="overlap_add.list configurations; non-trivial: overlap or window")),
   ("reconstruction", Kind(gen_recon, run_recon, chunk=50, rule="blocks -> overlap-add; non-trivial: signal longer than a block")),
   ("stft", Kind(gen_stft, run_stft, chunk=400, rule="STFT wrapper configurations and calling styles")),
   ("call-routes", Kind(gen_routes, run_routes, chunk=1,
                        rule="each function with every documented parameter set: all positional / all keyword / every split must agree")),
+  ("ola-default", Kind(gen_default, run_default, chunk=1,
+                       rule="order of choosing overlap_add.default and building / calling the processor x style x (size, hop)")),
 ])
